@@ -33,14 +33,21 @@ type Opt struct {
 	Sched     func(n *sim.Net) int
 	Prepare   func(n *sim.Net) // called after handlers are created, before running
 	NoRun     bool
+	// Current is installed as the simulator's Current hook and also called before each handler is constructed
+	// (handlers draw randomness in their constructor).
+	Current func(id party.ID)
 }
 
 // StartMulti creates MultiHandlers for ids; a start error is returned per party.
 func StartMulti(rng *vk.Rand, ids []party.ID, start func(id party.ID) protocol.StartFunc, opt Opt) (*sim.Net, map[party.ID]error) {
 	n := sim.New(rng)
 	n.Sched = opt.Sched
+	n.Current = opt.Current
 	errs := map[party.ID]error{}
 	for _, id := range ids {
+		if opt.Current != nil {
+			opt.Current(id)
+		}
 		h, err := protocol.NewMultiHandler(start(id), opt.SessionID)
 		if err != nil {
 			errs[id] = err
@@ -72,9 +79,16 @@ func RunMulti(rng *vk.Rand, ids []party.ID, start func(id party.ID) protocol.Sta
 func RunTwo(rng *vk.Rand, idA, idB party.ID, startA, startB protocol.StartFunc, leaderA, leaderB bool, opt Opt) (*sim.Net, []Outcome, error) {
 	n := sim.New(rng)
 	n.Sched = opt.Sched
+	n.Current = opt.Current
+	if opt.Current != nil {
+		opt.Current(idA)
+	}
 	hA, err := protocol.NewTwoPartyHandler(startA, opt.SessionID, leaderA)
 	if err != nil {
 		return n, nil, fmt.Errorf("start %q: %w", idA, err)
+	}
+	if opt.Current != nil {
+		opt.Current(idB)
 	}
 	hB, err := protocol.NewTwoPartyHandler(startB, opt.SessionID, leaderB)
 	if err != nil {
